@@ -13,11 +13,27 @@ Theorem delete_complete : forall ns t n', In n' (o_nodes (delete ns t)) ->
   (forall u, e_link n' = Some u -> ~ In u (deleted_ids ns t)).
 Proof. exact no_exposed_reference_left. Qed.
 Print Assumptions delete_complete.
+(* hypotheses (outer and inner) satisfiable together: the demo graph at the end of the file plus a surviving link
+   element 7 -> id 60; deleting 1 removes ids 10 and 20; survivor 3 keeps an exposed reference with a target, survivor
+   7 keeps its link *)
+Definition ex_ns : list el :=
+  [mkEl 1 None [10] [] None; mkEl 2 (Some 1) [20] [] None;
+   mkEl 3 None [30] [mkRef 7 true [10; 99; 20]] None; mkEl 4 (Some 3) [40] [] (Some 20); mkEl 5 (Some 4) [50] [] None;
+   mkEl 6 None [60] [mkRef 8 false [20]] None; mkEl 7 (Some 3) [70] [] (Some 60)].
+Example delete_complete_hyps_sat :
+  let n3 := mkEl 3 None [30] [mkRef 7 true [99]] None in
+  let n7 := mkEl 7 (Some 3) [70] [] (Some 60) in
+  In n3 (o_nodes (delete ex_ns 1)) /\ In (mkRef 7 true [99]) (e_refs n3) /\ ra_exposed (mkRef 7 true [99]) = true /\
+  In 99 (ra_targets (mkRef 7 true [99])) /\
+  In n7 (o_nodes (delete ex_ns 1)) /\ e_link n7 = Some 60 /\ deleted_ids ex_ns 1 = [10; 20].
+Proof. cbv zeta. vm_compute. intuition. Qed.
 
 (* 2. the target and its descendants are gone, and removed / surviving elements partition the model *)
 Theorem delete_removes_subtree : forall ns t n', In n' (o_nodes (delete ns t)) -> below ns [t] (e_h n') = false.
 Proof. exact deleted_subtree_gone. Qed.
 Print Assumptions delete_removes_subtree.
+Example delete_removes_subtree_hyps_sat : In (mkEl 6 None [60] [mkRef 8 false [20]] None) (o_nodes (delete ex_ns 1)).
+Proof. vm_compute. intuition. Qed.
 Theorem delete_partitions : forall ns t h, In h (map e_h ns) <->
   In h (o_removed (delete ns t)) \/ In h (map e_h (o_nodes (delete ns t))).
 Proof. exact partition_handles. Qed.
@@ -36,8 +52,19 @@ Theorem delete_frame : forall ns t n, In n ns ->
             (e_refs n') (e_refs n).
 Proof. exact frame. Qed.
 Print Assumptions delete_frame.
+(* hypotheses satisfiable: element 3 (holding the exposed reference list) is neither below the target nor below a
+   removed link element *)
+Example delete_frame_hyps_sat :
+  let n := mkEl 3 None [30] [mkRef 7 true [10; 99; 20]] None in
+  In n ex_ns /\
+  (below ex_ns [1] (e_h n) ||
+   below ex_ns (map e_h (filter (fun n => negb (below ex_ns [1] (e_h n)) &&
+                                      match e_link n with Some u => memz u (deleted_ids ex_ns 1) | None => false end) ex_ns)) (e_h n)) = false.
+Proof. cbv zeta. split; [right; right; now left|reflexivity]. Qed.
 
 (* 4. all-or-nothing *)
+(* the Some branch holds by definition of delete_guarded; the content is the None branch (a refusal names a
+   surviving refusing element) *)
 Theorem delete_all_or_nothing : forall refuses ns t,
   match delete_guarded refuses ns t with
   | None => exists n, In n ns /\ refuses n = true /\ below ns [t] (e_h n) = false
@@ -45,6 +72,10 @@ Theorem delete_all_or_nothing : forall refuses ns t,
   end.
 Proof. exact guarded_all_or_nothing. Qed.
 Print Assumptions delete_all_or_nothing.
+(* both branches occur *)
+Example delete_all_or_nothing_both_branches :
+  delete_guarded (fun n => e_h n =? 3) ex_ns 1 = None /\ delete_guarded (fun n => e_h n =? 6) ex_ns 1 = Some (delete ex_ns 1).
+Proof. split; reflexivity. Qed.
 
 (* non-vacuity: a function (1, id 10) with a child (2, id 20), referenced by an attribute list of 3 and by the link
    element 4 (which has a child 5); 6 references 20 through an attribute no accessor exposes *)
